@@ -43,6 +43,25 @@ T = {
  "C17-r2-params-traced-after-actions": ("C17", "parameters traced after the side effects ran (throwing side effect: no parameter lines)", "C17"),
  "C18-r2-hexdump-sign-extends": ("C18", "hex dump of an object containing a byte >= 0x80 prints 0xffffffXX", "C18"),
  "C19-r2-return-then-co-return-accepted": ("C19", ".RETURN(x).CO_RETURN(y) on an ordinary function compiles silently at C++20", "C19 (after the rule engine was corrected: row R24d)"),
+ "C01-r3-last-with-decides": ("C01", ">= 2 WITH clauses where an earlier one is false and the last one true: only the last WITH decides, the call is accepted", "C01"),
+ "C02-r3-retire-when-satisfied-again": ("C02", "successor with lower bound >= 2 accepted once after a satisfied, unsaturated predecessor: predecessors only retired when the successor is satisfied (variant of the revert of 625205b at another site)", "C02"),
+ "C03-r3-rt-times-before-in-sequence-unbounded": ("C03", ".RT_TIMES(l,h) written BEFORE .IN_SEQUENCE(s): the run-time upper bound is overwritten by 'unbounded'", "C03 (after odd expectation slots were made to write RT_TIMES before IN_SEQUENCE)"),
+ "C04-r3-count-before-sequence-validation-shortfall": ("C04", "a call rejected as out of sequence is counted before validation: the expectation is later believed satisfied, its shortfall at end of life is not reported", "C04"),
+ "C05-r3-validate-retires-per-sequence": ("C05", "expectation in two sequences, in order in the first and out of order in the second: the rejected call already moved the first sequence forward", "C05"),
+ "C06-r3-teardown-silent-when-completed": ("C06", "sequence object destroyed while is_completed() is true but satisfied, unsaturated expectations are still registered: they are not listed", "C06"),
+ "C07-r3-sequenced-rt-times-zero-unregistered": ("C07", ".RT_TIMES(0).IN_SEQUENCE(s): the forbidding expectation is not registered in the sequence; is_completed()/ordering ignore it and it dangles", "C07 (after sequenced RT_TIMES(0) was taken into the generator's scope and the model was made to test 'forbidden' before 'out of sequence')"),
+ "C09-r3-with-10th-by-copy": ("C09", "arity >= 10, WITH / LR_WITH naming _10: a copy, identity conditions (&_10 == &obj) fail, copies observable", "C09"),
+ "C10-r3-not-moves-from-lvalue": ("C10", "!m applied to a NAMED matcher object (lvalue) moves from it: the named matcher's own value is gone (strings) for later use", "C10 (after the named-lvalue laws were added to engine M: building !m, *m, any_of(m,..), MEMBER_IS(..,m) from a named matcher must not change it)"),
+ "C11-r3-ends-with-collection-first-occurrence": ("C11", "range_ends_with(collection) where the expected tail also occurs earlier in the range", "C11"),
+ "C12-r3-bounds-set-after-registration-unlocked": ("C12", ".TIMES/RT_TIMES given before .IN_SEQUENCE: the new handler is published to the sequence with bounds (1,1) and gets the real bounds afterwards without the lock, while another thread walks the sequence", "C12 (TSan, mode A)"),
+ "C13-r3-notify-cuts-chain": ("C13", ">= 2 requirements on one object, object dies, then the requirements are released: notify() cuts the chain, the older requirement is never told", "C13"),
+ "C14-r3-movable-mock-keeps-saturated-list": ("C14", "movable mock (trompeloeil_movable_mock) destroyed while a SATURATED named expectation on it is still alive: saturated list not emptied, abort / dangling links", "C14"),
+ "C15-r3-saturated-listing-stops-at-mismatch": ("C15", ">= 2 saturated expectations with different requirements, a non-matching one saturated earlier than a matching one, then a surplus call: saturated listing cut short / whole-list listing instead", "C15"),
+ "C16-r3-ok-before-sequence-validation": ("C16", "a call rejected as out of sequence (matcher accepts, sequence does not): an OK report is sent before the violation", "C16"),
+ "C17-r3-tracer-pointer-thread-local": ("C17", "tracer installed by one thread, accepted calls made by other threads: nothing is traced", "C17 (after engine T got a tracer installed by the main thread, run under --prop C17)"),
+ "C18-r3-null-check-only-in-primary-printer": ("C18", "null value of a pointer-like type that has a user printer specialisation or operator<<: the user code is entered with a null value instead of printing nullptr", "C18 (engine S: 25 types with user printer / operator<< and a null state)"),
+ "C19-r3-named-forbid-uses-short-times": ("C19", "TROMPELOEIL_LONG_MACROS and TROMPELOEIL_NAMED_FORBID_CALL: the macro uses the short name TIMES and no longer compiles", "C19 (deterministic family x macro-mode group of engine K)"),
+ "C20-r3-single-call-moves-yields": ("C20", "TIMES / RT_TIMES written after CO_RETURN / CO_THROW and >= 2 calls: the first coroutine took the expressions with it, later coroutines yield nothing / return moved-from values", "C20"),
  "C20-r2-shared-param-tuple-per-expectation": ("C20", "two calls with different arguments on one coroutine expectation, a clause naming _N evaluated after the later call", "C20 (after reference-parameter sites were added to engine Q)"),
 }
 logs = ""
